@@ -4,7 +4,7 @@ from .common import *
 from ..callgraph import node_writes
 
 EXPLANATION = (
-    "Decides four structural necessary conditions of C16 and nothing else: (1) equality and hashing "
+    "Decides structural necessary conditions of C16 and nothing else: (1) equality and hashing "
     "are both defined through absolutePath() (so they agree with absolute-path equality); (2) every "
     "member function or constructor of CgroupPath that modifies the component vector or the fs root - "
     "on its own object or on a local copy it returns - calls recomputeReadCache() on that object after "
@@ -14,11 +14,14 @@ EXPLANATION = (
     "either equal it or continue with '/', and strips exactly root + '/'; (4) the prekill-hook pattern match reads only the component vectors, returns false "
     "only on a mismatch of a common component whose pattern component is not '*', and true after the "
     "common prefix (this fixes the three-case relation for the implementation as written; a different "
-    "algorithm is reported, not judged).  Canonical form, the "
+    "algorithm is reported, not judged); (5) Fs::glob with dir_only emits a path only after isDir() "
+    "confirmed it (GLOB_ONLYDIR is a hint); (6) the component vector is only ever written with pieces of "
+    "Util::split(text, '/') (which are non-empty and slash-free, see C01's split rule), by removing "
+    "components or by memberwise copy, and getParent removes exactly one component.  Canonical form, the "
     "parent/child inverse law, the three-case pattern relation, glob(3) exactness and comma splitting "
     "are statements about string values and are not decided - this is the bulk of the property.")
 RULE_SUMMARY = "expression shape of operator== and std::hash, class-invariant recompute rule (E-PATH must-follow per modified object), guard dominance in resolveWildcard"
-NOT_DECIDED = ["canonical form of paths (slashes, empties)", "getChild/getParent inverse law", "the three-case pattern relation for an algorithm other than the component loop",
+NOT_DECIDED = ["the joined string forms (separator placement in recomputeReadCache)", "getChild/getParent inverse law as an equation", "the three-case pattern relation for an algorithm other than the component loop",
                "exactness of glob(3) resolution", "comma splitting of the cgroup argument"]
 ASSUMPTIONS = ["std::hash<std::string> and operator== on std::string are consistent"]
 
@@ -165,6 +168,64 @@ def run(ctx):
     ctx.check(re.match(r"^\((?:var:)?\w+ < std::min\((?:this->cgroup_path_\.size\(\), (?:param:)?pattern\.cgroup_path_\.size\(\)|(?:param:)?pattern\.cgroup_path_\.size\(\), this->cgroup_path_\.size\(\))\)\)$", hdr) is not None,
               "pattern-match:over-common-prefix", "loop-shape", hm.loc(), "components are compared over the common prefix length (ancestor / descendant cases fall out as true)",
               "loop bound is " + hdr)
+    # ---- (6) canonical components: every component ever stored comes out of Util::split(text, '/') (never empty, never containing '/')
+    n_cw = 0
+    for f in sorted(P.fns.values(), key=lambda x: x.line):
+        if f.cls != "Oomd::CgroupPath":
+            continue
+        Xc = Expander(P, f, mark_modified=True)
+        for i in range(len(f.nodes)):
+            if "F:Oomd::CgroupPath::cgroup_path_" not in node_writes(f, i) or f.pos_of(i) is None:
+                continue
+            n_ = f.nodes[i]
+            nm = n_.get("cname") or n_.get("op") or ""
+            t = Xc(i)
+            n_cw += 1
+            if nm in ("pop_back", "reserve", "clear", "shrink_to_fit"):
+                ok_ = True
+            elif nm in ("operator=", "="):
+                rhs = t.split("=", 1)[1] if "=" in t else t
+                ok_ = re.search(r"Oomd::Util::split\(param:\w+, 47\)", t) is not None or re.search(r"(param:)?other\.cgroup_path_", t) is not None
+            elif nm in ("emplace_back", "push_back"):
+                a = Xc(f.nodes[i]["args"][0]) if f.nodes[i].get("args") else ""
+                a = re.sub(r"^std::move\((.*)\)$", r"\1", a)
+                ok_ = re.match(r"^elem\(Oomd::Util::split\(param:\w+, 47\)\)$", a) is not None
+            else:
+                ok_ = False
+            ctx.check(ok_, "components-come-from-split:%s@%s:%d" % (f.name, nm, n_.get("line", 0)), "who-may-write + provenance", f.loc(i),
+                      "%s stores only pieces of Util::split(text, '/') (or removes / copies components)" % f.name,
+                      "%s writes the component vector with %s: a component may be empty or contain '/', so equal paths get different canonical forms" % (f.name, t[:120]))
+    ctx.counters["component_vector_writes"] = n_cw
+    ctx.floor("component_vector_writes", 4, "writes of cgroup_path_ (constructor, getParent, getChild)")
+    gp = ctx.fn1("Oomd::CgroupPath::getParent")
+    pops = gp.calls("pop_back")
+    fgp = Flow(P, gp, events={i: [("set", "popped")] for i in pops}, cg=cg)
+    okp = len(pops) == 1 and not fgp.may(pops[0], "popped")
+    for kind, node, b, parts in fgp.exits():
+        if kind == "return" and not all("popped" in st.must for st in parts.values()):
+            okp = False
+    ctx.check(okp, "getParent-drops-exactly-one-component", "per-path exactly-once", gp.loc(), "getParent removes exactly the last component on every returning path",
+              "getParent does not remove exactly one component")
+    # ---- (5) glob(dir_only): GLOB_ONLYDIR is only a hint - every result is confirmed to be a directory
+    gl = ctx.fn1("Oomd::Fs::glob")
+    ctx.anchor(gl, "dir_only", "ret")
+    fgl = Flow(P, gl, cg=cg, split=lambda k: k == "dir_only")
+    emits = [i for i in gl.calls("emplace_back", "push_back") if gl.text(gl.nodes[i].get("recv", -1)) == "ret"]
+    ctx.counters["glob_emit_sites"] = len(emits)
+    ctx.floor("glob_emit_sites", 1, "result emission in Fs::glob")
+    for i in emits:
+        arg = gl.text(gl.strip(gl.nodes[i]["args"][0])) if gl.nodes[i].get("args") else "?"
+        arg = re.sub(r"^std::move\((.*)\)$", r"\1", arg)
+        bad = []
+        for key, st_ in (fgl.at(i) or {}).items():
+            conds = set(st_.conds)
+            if ("dir_only", False) in conds:
+                continue
+            if not any(p is True and re.match(r"^(Oomd::Fs::)?isDir\(%s\)$" % re.escape(arg), k) for k, p in conds):
+                bad.append(sorted(conds, key=str))
+        ctx.check(not bad and fgl.at(i), "glob:dir-only-results-are-directories", "guarded_by (split on dir_only)", gl.loc(i),
+                  "with dir_only every emitted path passed isDir()", "with dir_only a path can be emitted without the isDir() confirmation (GLOB_ONLYDIR is only a hint: "
+                  "a literal last component naming a regular file is returned by glob(3)): facts %s" % (bad[0] if bad else "none"))
     # ---- (3) resolveWildcard prefix filter
     rw = ctx.fn1("Oomd::CgroupPath::resolveWildcard")
     ctx.anchor(rw, "path", "ret")
